@@ -5,6 +5,7 @@ import Mathlib.LinearAlgebra.Span.Defs
 import Mathlib.Algebra.Order.Field.Basic
 import Mathlib.Tactic.Ring
 import Mathlib.Tactic.Abel
+import Mathlib.Tactic.Push
 import Mathlib.Tactic.Linarith
 import Mathlib.Tactic.FieldSimp
 /-!
@@ -419,6 +420,25 @@ theorem r_zero_of_le {k m : ℕ} (h : c.r k = 0) (hm : k ≤ m) : c.r m = 0 ∧ 
   | succ m _ ih =>
     obtain ⟨h1, h2⟩ := c.r_stationary m ih.1
     exact ⟨h1, h2.trans ih.2⟩
+
+/-- **energy minimisation for definite operators, no breakdown hypothesis**: if `P` and `A` are definite
+(`⟨v, P v⟩ = 0 → v = 0`, `⟨A v, v⟩ = 0 → v = 0`) and `A` is positive semi-definite then the `k`-th iterate minimises the
+energy of the error over `x0 + K_k(PA, P r0)` for EVERY `k` (after the residual has vanished the iterate is the
+solution and stays there). -/
+theorem energy_min_definite [LinearOrder 𝕜] [IsStrictOrderedRing 𝕜] (hs : c.Symm)
+    (hP : ∀ v, c.B v (c.P v) = 0 → v = 0) (hA : ∀ v, c.B (c.A v) v = 0 → v = 0) (hpos : ∀ v, 0 ≤ c.energy v)
+    (xs : V) (h0 : c.r0 = c.A (xs - c.x0)) (k : ℕ) (y : V) (hy : y - c.x0 ∈ c.krylov k) :
+    c.energy (xs - c.x k) ≤ c.energy (xs - y) := by
+  by_cases h : ∀ i, i < k → c.r i ≠ 0
+  · have hnb := c.noBreakdown_of_definite hs hP hA k h
+    rw [← c.spanP_eq_krylov hnb] at hy
+    exact c.energy_min hs hpos xs h0 hnb y hy
+  · push Not at h
+    obtain ⟨i, hi, hri⟩ := h
+    have hrk : c.r k = 0 := (c.r_zero_of_le hri (Nat.le_of_lt hi)).1
+    have : c.energy (xs - c.x k) = 0 := by
+      unfold energy; rw [← c.r_eq xs h0 k, hrk]; simp
+    rw [this]; exact hpos _
 
 end CGData
 end Amgcl.Krylov
